@@ -83,12 +83,28 @@ contract(IN + ".renderwb",
                     suppose={'orphan_nonneg': "orphan >= 0"}, assume={'nonempty': "len_of(sequence) >= 1"}),
                dict(before="last = end - 1",
                     abstract={'start': Int(), 'end': Int(), 'sz': Int()},
-                    assume={'start_lo': "1 <= start", 'ordered': "start <= end"}),
+                    # C11 (from the property): 1 <= start <= end <= length
+                    assume={'C11.start_lo': "1 <= start", 'C11.ordered': "start <= end",
+                            'C11.end_in_sequence': "end <= len_of(sequence)", 'size_pos': "sz >= 1"},
+                    havoc_ghost=["sequence"]),
                dict(before="if index == last: pkw['sequence-end'] = 1",
                     abstract={'index': Int()}, live=["kw"], havoc_heap=["kw"], drop=['pstart', 'pend', 'psize'],
-                    havoc_ghost=["sequence"], forget_iteration=True),
+                    havoc_ghost=["sequence"], forget_iteration=True,
+                    assume={'in_window': "first <= index and index < end",
+                            # C11: batch links announced on the first / last displayed element
+                            'C11.previous_sequence_flag': "kw['previous-sequence'] == (1 if (index == first and first > 0) else 0)",
+                            'C11.next_sequence_flag': "kw['next-sequence'] == (1 if (index == last and end < len_of(sequence)) else 0)",
+                            'C11.previous_batch_ends_at_start_minus_1_plus_overlap':
+                                "implies(index == first and first > 0 and overlap >= 0, "
+                                "kw['previous-sequence-end-index'] + 1 == imin(start - 1 + overlap, len_of(sequence)))",
+                            'C11.next_batch_starts_at_end_plus_1_minus_overlap':
+                                "implies(index == last and end < len_of(sequence) and overlap <= end, "
+                                "kw['next-sequence-start-index'] + 1 == imin(end + 1 - overlap, len_of(sequence)))",
+                            }),
                dict(before="if guarded_getitem is not None:",
-                    abstract={'index': Int()}, live=["kw"], havoc_heap=["kw"], havoc_ghost=["sequence"], forget_iteration=True),
+                    abstract={'index': Int()}, live=["kw"], havoc_heap=["kw"], havoc_ghost=["sequence"], forget_iteration=True,
+                    assume={'C11.displayed_index_in_sequence': "0 <= index and index < len_of(sequence)",
+                            'in_window': "first <= index and index < end"}),
                dict(before="pkw['sequence-index'] = index",
                     abstract={'client': Opaque(), 'index': Int()}, live=["kw"], havoc_heap=["kw"],
                     havoc_ghost=["sequence"], forget_iteration=True),
